@@ -182,6 +182,10 @@ QLatency(q, nref, minref, nok, minok) ==
   Flag(q, (IF nref >= 3 /\ minref > 20000 THEN {<<"C10", "every-refused-emit-waited-while-the-wrapped-sink-was-blocked">>} ELSE {})
           \cup (IF nok >= 3 /\ minok > 20000 THEN {<<"C10", "every-accepted-emit-waited-while-the-wrapped-sink-was-blocked">>} ELSE {}))
 
+\* the quickest of n stopping drops made while the wrapped sink was held blocked and the queue full (C09: never blocks)
+QDropLatency(q, n, min) ==
+  Flag(q, IF n >= 3 /\ min > 50000 THEN {<<"C09", "every-stopping-drop-waited-while-the-wrapped-sink-was-blocked">>} ELSE {})
+
 QBulk(q, okn, deln) == [q EXCEPT !.bulkOk = @ + okn, !.bulkDel = @ + deln]
 
 \* after every producer returned and the sink had time to drain, handles still alive
